@@ -126,7 +126,60 @@ class ParserSteps(Contract):
     canaries = [("self.MAX_LENGTH = self._MAX_VALUE_LENGTH", "pass", "key_value_alternation_and_single_delivery")]
 
 
-CONTRACTS = [Serialize, ParserSteps]
+
+# -- AmpList: one box per element ------------------------------------------------------------------------------------
+
+
+def _objects_to_strings(I, objects, arglist, strings, proto):
+    """_objectsToStrings fills the box it is given with the element's arguments: recorded with that box (identity and
+    content on arrival), then a key that names the element is put in"""
+    c = ctx()
+    n = len([e for e in c.trace if e.name == "fill"])
+    c.emit("fill", strings, (objects,), {}, {"keys": sorted(strings.keys())})
+    strings[b"k%d" % n] = b"v%d" % n
+    return strings
+
+
+class AmpListOneBoxPerElement(Contract):
+    """AmpList.toStringProto serialises every element into a box of its own: a fresh, empty box per element (an optional
+    argument absent from a later element must not inherit the value of an earlier one: seeded change C30-3), the
+    results concatenated in order."""
+    prop = "C30"
+    module = M
+    function = "AmpList.toStringProto"
+    differential = False
+    calls = {"_objectsToStrings": _objects_to_strings, "Box": "native", "AmpBox": "native"}
+    inputs = dict(n=OneOf(0, 1, 2, 3))
+
+    def setup(self, i):
+        al = self.make(amp.AmpList, subargs=[(b"a", self.opaque("argtype"))], optional=False)
+        elements = [{"a": k} for k in range(i.n)]
+        return dict(self=al, args=[elements, self.opaque("proto")], objs=dict(al=al), ghost=dict(elements=elements))
+
+    def bounded_inputs(self, tier):
+        return iter(())
+
+    raises = ()
+
+    def _fresh(S):
+        fills = [e for e in S.trace if e.name == "fill"]
+        els = S.ghost["elements"]
+        if len(fills) != len(els):
+            return False
+        boxes = [e.target for e in fills]
+        distinct = all(boxes[a] is not boxes[b] for a in range(len(boxes)) for b in range(a + 1, len(boxes)))
+        empty = all(e.snap["keys"] == [] for e in fills)
+        order = all(e.args[0] is el for e, el in zip(fills, els))
+        want = b"".join(amp.AmpBox({b"k%d" % k: b"v%d" % k}).serialize() for k in range(len(els)))
+        return distinct and empty and order and S.result == want
+
+    ensures = dict(a_fresh_empty_box_per_element_results_concatenated_in_order=_fresh)
+    canaries = [("_objectsToStrings(objects, self.subargs, Box(), proto).serialize()",
+                 "_objectsToStrings(objects, self.subargs, _sharedBox, proto).serialize()",
+                 "a_fresh_empty_box_per_element_results_concatenated_in_order")]
+
+
+CONTRACTS = [Serialize, ParserSteps, AmpListOneBoxPerElement]
 BOUNDED = bounded("C30")
 NOTES = dict(
     explanation="serialize proved against the wire grammar incl. the empty-key refusal; parser steps proved for one "
